@@ -165,7 +165,12 @@ func (e *eng) envCase(r layRow, i int) {
 		y.WriteString("    variations:\n      - VN: \"1\"\n")
 	}
 	y.WriteString("    command:\n      - echo \"OBS$VN X=[$X] T=[$TASK_NAME] U=[$UNTOUCHED]\"\n")
-	y.WriteString("pipelines:\n  p:\n    - task: t\n")
+	// the stage is named differently from its task in every other row: TASK_NAME stays the task's name
+	if r.Ord == "asc" {
+		y.WriteString("pipelines:\n  p:\n    - name: stage-one\n      task: t\n")
+	} else {
+		y.WriteString("pipelines:\n  p:\n    - task: t\n")
+	}
 	if r.has(5) {
 		fmt.Fprintf(&y, "      env:\n        X: %s\n", yq(v(5)))
 	}
@@ -622,7 +627,11 @@ func (e *eng) taskNameParallel(k int) {
 	}
 	y.WriteString("pipelines:\n  p:\n")
 	for i := 1; i <= k; i++ {
-		fmt.Fprintf(&y, "    - task: pt%d\n", i)
+		if i%2 == 0 {
+			fmt.Fprintf(&y, "    - name: stage%d\n      task: pt%d\n", i, i)
+		} else {
+			fmt.Fprintf(&y, "    - task: pt%d\n", i)
+		}
 	}
 	_ = ioutil.WriteFile(filepath.Join(d, "tasks.yaml"), []byte(y.String()), 0o644)
 	res := e.run(d, nil, "--raw", "p")
@@ -913,6 +922,11 @@ func (e *eng) stageBin(c stgCase, i int) {
 	}
 	// another pipeline whose only stage uses the same task without overrides
 	y.WriteString("  q:\n    - name: q1\n      task: t\n")
+	if i%2 == 0 {
+		// a third pipeline (never run here) includes q as a stage with settings of its own: they
+		// belong to that stage, q run by itself must not show them
+		fmt.Fprintf(&y, "  outer:\n    - name: inc\n      pipeline: q\n      env:\n        V: vX\n        P: pX\n      variables:\n        w: wX\n      dir: %s\n", yq(filepath.Join(d, "d0")))
+	}
 	_ = ioutil.WriteFile(filepath.Join(d, "tasks.yaml"), []byte(y.String()), 0o644)
 	// the pipeline, then another pipeline and a direct run of the same task in the same process
 	outdir := filepath.Join(d, "out")
